@@ -754,6 +754,21 @@ Definition up_remaining_m (k : trk) : nat :=
   if k_up_ended k then 0 else
   length (filter (fun s => match s with UItem _ => true | UErr => is_try (k_type k) | _ => false end) (k_ups k)).
 
+(** items a merged source will still yield: the item letters of its remaining script before its end *)
+Fixpoint items_left_src (sc : script) : nat :=
+  match sc with
+  | [] => 0
+  | (_, r) :: rest =>
+      match r with
+      | RI => S (items_left_src rest)
+      | RE => 0
+      | _ => items_left_src rest      (* a source answers Pending for every other letter *)
+      end
+  end.
+
+Definition merge_items_left (k : trk) : nat :=
+  list_sum (map (fun c => match lookupN c (k_scripts k) with Some sc => items_left_src sc | None => 0 end) (k_held k)).
+
 Definition chk_C17_ev (k : trk) (o : op) (e : event) : bool :=
   match e with
   | EObs ob =>
@@ -763,11 +778,10 @@ Definition chk_C17_ev (k : trk) (o : op) (e : event) : bool :=
           let t := k_type k in
           let remaining :=
             if is_adapter t then up_remaining_m k + length (k_held k)
-            else if is_merge t then 0            (* merges report (0, None): lower bound only *)
+            else if is_merge t then merge_items_left k   (* the code reports (0, None) *)
             else length (k_held k) in
           N.leb lo (N.of_nat remaining)
-          && (if is_merge t then match hi with None => true | Some _ => true end
-              else match hi with Some h => N.leb (N.of_nat remaining) h | None => true end)
+          && match hi with Some h => N.leb (N.of_nat remaining) h | None => true end
       end
   | _ => true
   end.
